@@ -11,6 +11,7 @@ Oracle (model-independent): io.BytesIO on the same input for every read-type cal
 writes (prefix of what was written, complete at flush/close, through the last newline when line buffered).
 """
 import io
+import socket
 import threading
 
 from pv import core
@@ -137,10 +138,13 @@ def make_file(p):
             self.rg = list(p["rg"])
             self.wg = list(p["wg"])
             self.eofs = list(p["eofs"])
+            self.fails = list(p.get("fails", []))
             self.out = bytearray()
             self._set_mode(p["mode"], p["bufsize"])
 
         def _read(self, size):
+            if self.fails and self.fails.pop(0):
+                raise socket.timeout()  # nothing delivered, nothing consumed
             k = min(size, self.rg.pop(0) + 1) if self.rg else size
             data, self.inp = self.inp[:k], self.inp[k:]
             if not data:
@@ -181,6 +185,8 @@ class RefCheck:
         else:
             self.ref = None
         self.sent = b""
+        self.inp = p["inp"]
+        self.get_pending = None   # set for streams that may raise: bytes not yet handed to the caller
         self.get_out = get_out
         self.bufsize = p["bufsize"]
         self.bad = []
@@ -188,6 +194,23 @@ class RefCheck:
     def after(self, op, tok):
         k, a = op
         ref = self.ref
+        if tok == "E:stream4" and ref is not None and self.get_pending is not None:
+            # the call raised in the middle of fetching and returned nothing.  Whatever it took off the stream
+            # must still be ahead of the caller (read-ahead ++ undelivered stream == what the reference expects next).
+            expected = ref.getvalue()[ref.tell():]
+            actual = self.get_pending()
+            if actual != expected:
+                gone = len(expected) - len(actual)
+                if k in ("i", "L", "L0"):
+                    pass  # list(f) / readlines(): the lines collected before the exception are lost with the list
+                elif k in ("r0",) or (k == "r" and (a is None or a < 0)):
+                    self.bad.append(("exception-drops-data:read()", op, "%d bytes gone" % gone, "nothing may be lost"))
+                elif k in ("l", "l0", "n"):
+                    self.bad.append(("exception-drops-data:readline", op, "%d bytes gone" % gone, "nothing may be lost"))
+                else:  # read(n) / readinto: keeps every fetched chunk in the read-ahead
+                    self.bad.append(("exception-drops-data:read(n)", op, "%d bytes gone" % gone, "nothing may be lost"))
+                self.ref = io.BytesIO(actual)   # go on from what is really there
+            return
         if tok.startswith("E:"):
             return
         if ref is None and k in ("r", "r0", "ri", "l", "l0", "n", "i", "L", "L0"):
@@ -244,6 +267,8 @@ def run_real(p, f, get_out, check):
                 tok = "ok"
             else:
                 tok = apply_op(f, op)
+        except socket.timeout:
+            tok = "E:stream4"
         except IOError as e:
             tok = classify_ioerror(e) or ("X:" + core.exc_site(e))
         except ValueError as e:  # __iter__ on a closed file
@@ -483,6 +508,50 @@ def run_real_stdin_cases(ctx, n):
                 ctx.disagree("makefile_stdin over a real channel vs model", {"program": req}, rep, impl)
 
 
+def run_raising_stream_cases(ctx, n):
+    """Streams whose _read raises (socket.timeout) at arbitrary points of the chunk sequence; the caller retries.
+    Everything returned across calls must be the stream prefix consumed, in order."""
+    rng = ctx.rng
+    progs = []
+    for _ in range(n):
+        p = gen_program(rng)
+        while "U" in p["mode"] or not ("r" in p["mode"] or "+" in p["mode"]):
+            p = gen_program(rng)
+        p["eofs"] = []
+        p["fails"] = [rng.random() < 0.25 for _ in range(rng.randrange(1, 40))]
+        if rng.random() < 0.6:  # mostly read(n): the path that must not lose anything
+            ops = []
+            for _ in range(rng.randrange(2, 16)):
+                ops.append(rng.choice([("r", rng.randrange(1, 40)), ("r", rng.randrange(1, 12)), ("ri", rng.randrange(1, 20)),
+                                       ("t", None)]))
+            p["ops"] = ops
+        progs.append(p)
+    reqs = ["progx %s %d %d %s %s %s %s %s" % (
+        p["mode"], p["bufsize"], p["dflt"], hx(p["inp"]), ",".join(map(str, p["rg"])) or "-",
+        ",".join(map(str, p["wg"])) or "-", "".join("1" if x else "0" for x in p["fails"]) or "-",
+        " ".join(op_token(o) for o in p["ops"])) for p in progs]
+    replies = ctx.driver("C42", reqs)
+    for i, p in enumerate(progs):
+        f = make_file(p)
+        check = RefCheck(p, lambda f=f: f.out)
+        check.get_pending = lambda f=f: bytes(f._rbuffer) + bytes(f.inp)
+        toks = run_real(p, f, lambda f=f: f.out, check)
+        impl = " ".join(toks) + " | out=%s pos=%d realpos=%d rbuf=%s wbuf=%s closed=%d left=%d" % (
+            hx(bytes(f.out)), f._pos, f._realpos, hx(f._rbuffer), hx(f._wbuffer.getvalue()), 1 if f._closed else 0,
+            len(f.inp))
+        case = {"program": reqs[i]}
+        ctx.case(("raising", reqs[i]), "E:stream4" in toks)
+        ctx.dist("raising-stream:" + ("a fetch raised" if "E:stream4" in toks else "no fetch raised"))
+        for t, o in zip(toks, p["ops"]):
+            if t.startswith("X:"):
+                ctx.fail("raising-stream:unexpected-exception:" + t[2:], dict(case, op=op_token(o)), t)
+        for sig, op, got, want in check.bad:
+            ctx.fail(sig if sig.startswith("exception-drops-data") else "raising-stream:" + sig,
+                     dict(case, op=op_token(op)), "real %s, reference %s" % (got, want))
+        if replies is not None and replies[i] != impl:
+            ctx.disagree("BufferedFile over a raising stream vs model", case, replies[i], impl)
+
+
 def run_channel_cases(ctx, n):
     """Thorough tier: ChannelFile over a real channel pair; chunking is recorded and replayed into the model."""
     import paramiko
@@ -592,7 +661,8 @@ def run(ctx):
                 "{8192,1,2,7,64}, PRNG short-read and short-write grants, three EOF signalling styles; universal-newline "
                 "('U') modes over CR/CRLF/LF-heavy streams, 70% of them whole-line programs, plus a directed corpus of "
                 "CR-at-chunk-end cases; the channel file classes ChannelFile/ChannelStderrFile/ChannelStdinFile over a "
-                "recording channel (writes, flushes, close / with-exit / double close / late writes; EOF order). "
+                "recording channel (writes, flushes, close / with-exit / double close / late writes; EOF order); streams whose "
+                "_read raises socket.timeout at random points with the caller retrying. "
                 "distinct = distinct request lines; non-trivial = at least one read-type or write op succeeded")
     ctx.trust("UTF-8 decode of text-mode readline results is CPython's (text-mode streams are ASCII; model works on bytes)",
               "universal-newline mode ('U'): modelled (PV/Model/BufFileU.lean) and tied; reference for whole-line calls = "
@@ -637,6 +707,7 @@ def run(ctx):
         if replies is not None and replies[i] != impl:
             ctx.disagree("BufferedFile vs model", {"program": reqs[i]}, replies[i], impl)
     run_recording_channel_cases(ctx, 12000 if ctx.thorough else 1500)
+    run_raising_stream_cases(ctx, 12000 if ctx.thorough else 1500)
     if ctx.thorough:
         run_channel_cases(ctx, 150)
         run_real_stdin_cases(ctx, 80)
@@ -658,7 +729,15 @@ META = {
               "programs (return values, stream contents, _pos/_realpos/_rbuffer/_wbuffer) against a real "
               "BufferedFile subclass with PRNG short reads/writes and three EOF styles; thorough tier also a real "
               "ChannelFile over a real Transport/Channel pair with recorded chunking."),
-    "note": ("The BufferedFile subclasses the property's wrappers actually are — ChannelFile, ChannelStderrFile, "
+    "note": ("Streams whose _read RAISES (socket.timeout / OSError) at arbitrary points of the chunk sequence are part of "
+             "every run (PV/Model/ChanX.lean, 1500 programs, the caller retries): proved read_n_keeps_data_on_exception "
+             "(a read(n) that raises leaves every fetched byte in the read-ahead; one that returns hands out exactly "
+             "the next n pending bytes), oracle = everything returned across calls is the stream in order. read() and "
+             "readline()/next hold fetched chunks in a local and LOSE them when a later fetch raises: two listed known "
+             "findings with machine-checked witnesses (read_all_drops_data_on_exception_witness, "
+             "readline_drops_data_on_exception_witness); list(f)/readlines() lose the lines collected so far with the "
+             "list they were building (inherent in the API, not reported). " +
+             "The BufferedFile subclasses the property's wrappers actually are — ChannelFile, ChannelStderrFile, "
              "ChannelStdinFile with their _read/_write/close overrides — are driven on every run over a recording "
              "channel (stream = what recv/recv_stderr delivered and sendall/sendall_stderr/shutdown_write received, in "
              "order) and tied to PV/Model/ChanFile.lean; proved: stdin_close_delivers_before_eof, "
